@@ -410,6 +410,41 @@ func genBigInt(r *gen.RNG) *big.Int {
 		t := new(big.Int).Mul(big.NewInt(5), ref.Pow10(k-1))
 		i.Add(i, t)
 		i.Add(i, big.NewInt(int64(r.Pick(0, 0, 1, -1))))
+	case 6: // structured: a 34/35-digit head and a chosen pattern of dropped digits (guard, zero run, digit, zeros/tail),
+		// at every leading-digit class (the number of digits dropped in one step depends on the leading digits)
+		lead := r.Range(10, 99)
+		if r.Chance(1, 3) {
+			lead = r.Pick(12, 13, 20, 33, 34, 99)
+		}
+		head := new(big.Int).Mul(big.NewInt(int64(lead)), ref.Pow10(32))
+		head.Add(head, r.BigBelow(ref.Pow10(32)))
+		if r.Bool() {
+			head.SetBit(head, 0, 0)
+		}
+		k := r.Pick(5, 5, 4, 6, r.Range(1, 30))
+		ds := make([]byte, k)
+		for p := range ds {
+			ds[p] = '0'
+		}
+		ds[0] = byte('0' + r.Pick(5, 5, 0, 4, 9))
+		if k > 1 {
+			pos := 1 + r.Intn(k-1)
+			if r.Chance(1, 2) {
+				pos = 1
+			}
+			ds[pos] = byte('0' + r.Range(1, 9))
+			if r.Chance(1, 3) {
+				for q := pos + 1; q < k; q++ {
+					ds[q] = byte('0' + r.Intn(10))
+				}
+			}
+		}
+		t, _ := new(big.Int).SetString(string(ds), 10)
+		i = new(big.Int).Mul(head, ref.Pow10(k))
+		i.Add(i, t)
+		if r.Chance(1, 3) {
+			i.Mul(i, ref.Pow10(r.Range(1, 200)))
+		}
 	case 2: // long nine-runs
 		k := r.Range(30, 6200)
 		i = new(big.Int).Sub(ref.Pow10(k), big.NewInt(int64(r.Range(1, 3))))
